@@ -190,6 +190,17 @@ def handle : List String → Verdict
         -- a disagreement in a script that contains a construct the parser does not track is the known limitation
         sig := "quote" ++ (if want != got && !feats.isEmpty then ";untracked-construct" else "") }
     | none => .badOp
+  | ["postwice", sH, d1H, w1H, d2H, w2H] =>
+    -- the same expression text in several positions of one script element: the element is the concatenation of what
+    -- the single-position fixtures (each judged by the `pos` cases) render
+    match hexField sH, hexField d1H, hexField w1H, hexField d2H, hexField w2H with
+    | some _s, some d1, some w1, some d2, some w2 =>
+      { predfail :=
+          if d1 != w1 then some s!"one script element with the same expression bare, in '…', in \"…\", in a template literal and bare again: rendered {Bytes.toHex d1}; each occurrence encoded for its own position gives {Bytes.toHex w1}"
+          else if d2 != w2 then some s!"one script element with the same expression in '…' first and bare afterwards: rendered {Bytes.toHex d2}; each occurrence encoded for its own position gives {Bytes.toHex w2}"
+          else none,
+        nontrivial := true, tags := ["same-expression-in-several-positions"], sig := "postwice" }
+    | _, _, _, _, _ => .badOp
   | ["pos", name, sH, docH] =>
     match hexField sH, hexField docH with
     | some s, some doc =>
